@@ -12,8 +12,8 @@ INV_EXCEPTIONS = {
 }
 
 CANV_EXCEPTIONS = {
-    "display.curses._test.run:r.coords =": "manual curses test harness operating on its own FakeRender stand-in, not on a widget canvas",
-    "display.curses._test.run:r.cursor =": "manual curses test harness operating on its own FakeRender stand-in, not on a widget canvas",
+    "display.curses._test.run:.coords =": "manual curses test harness operating on its own FakeRender stand-in, not on a widget canvas",
+    "display.curses._test.run:.cursor =": "manual curses test harness operating on its own FakeRender stand-in, not on a widget canvas",
 }
 
 # Origin-level infeasible raises for the EXC engine: "function:Exc:construct" -> dominating fact.
